@@ -19,6 +19,8 @@ def signature(ev, guards):
         sig["status_class"] = ev["out"]["class"]
     else:
         sig["sealed"] = c["sealed"]
+        if c.get("keyload", "all") != "all":
+            sig["keyload"] = c["keyload"]
     return sig
 
 
